@@ -36,6 +36,10 @@ stdin : JSON dict(mode=..., cases=[...])
   mode 'chain' cases: dict(method, depth, obj=dict(kind, t, init|value, sync), n) -- REAL processes:
         the driver creates the object and starts a child with it, which works on it and starts a grandchild
         with it, ... (sharedmem_targets.chain_level); every level reports what it saw on entry and at exit
+  mode 'forklock' cases: dict(kind='Value'|'Array'|'RawValue', t, value|init, lock='default'|'RLock'|'Lock', nchild, n) -- REAL
+        processes, fork start method: the parent takes the object's lock and starts the updater processes from INSIDE the
+        `with lock:` block (the forking thread holds the lock); each child reports what its copy of the lock says and one
+        non-blocking attempt, then makes n locked updates; the parent reads the value again, stores old + 1, releases
 
 Arenas: a bytearray-backed stub (zero-filled like a fresh mmap) unless real=True.
 """
